@@ -399,7 +399,7 @@ impl EntriesOnly {
     ensures
         r.rc == stream_result(*old(stream)).rc && r.matched == stream_result(*old(stream)).matched && r.text == stream_result(*old(stream)).text
             && r.ctrls == stream_result(*old(stream)).ctrls, //# C10.entries_only_finish_keeps_the_streams_result
-        r.refs@ == stream_result(*old(stream)).refs@ + old(self).refs@, //# C10.entries_only_finish_appends_collected_referrals
+        r.refs@ == stream_result(*old(stream)).refs@ + old(self).refs@, //# C03+C10.entries_only_finish_appends_collected_referrals
 //@end
 
 //@lift name=EntriesOnly::start file=src/adapters.rs impl="impl<'a, S, A> Adapter<'a, S, A> for EntriesOnly" fn=start
